@@ -250,7 +250,24 @@ def inline_helpers(tree, known_functions):
                     continue
                 call, h, recv = hits[0]
                 others = [c for c in calls if c is not call]
-                if any(not (isinstance(c.func, ast.Name) and c.func.id in _PURE_BUILTINS) for c in others):
+
+                def harmless(c):
+                    # an effect-free builtin, or a call that has the helper call among its arguments while everything
+                    # evaluated before the helper call (callee, earlier arguments) is call-free: moving the helper's body in
+                    # front of the statement does not reorder any effect
+                    if isinstance(c.func, ast.Name) and c.func.id in _PURE_BUILTINS:
+                        return True
+                    parts = [c.func] + list(c.args) + [k.value for k in c.keywords]
+                    holder = [p_ for p_ in parts if any(x is call for x in ast.walk(p_))]
+                    if len(holder) != 1 or holder[0] is c.func:
+                        return False
+                    for p_ in parts:
+                        if p_ is holder[0]:
+                            break
+                        if any(isinstance(x, ast.Call) for x in ast.walk(p_)):
+                            return False
+                    return True
+                if any(not harmless(c) for c in others):
                     i += 1
                     continue
                 if call.keywords and any(k.arg is None for k in call.keywords):
